@@ -85,6 +85,11 @@ def cases(tier, seed, PROP):
         # identities changed between two writes (rename, another origin): references must follow
         for k in range(60 if tier == 'quick' else 1500):
             yield {'stratum': 'identity-change-then-rewrite', 'index': k, 'kind': 'rewrite'}
+    if PROP == 'C09':
+        # the header pointed at an origin other than the defining one (possibly one of another ORIGIN set): the defining origin
+        # still comes first
+        for k in range(24 if tier == 'quick' else 400):
+            yield {'stratum': 'header-origin-field', 'index': k, 'kind': 'header-origin'}
     if PROP in ('C09', 'C04'):
         # the header's id (incl. ids longer than the 65 characters of its field) / sequence number re-assigned between writes
         for k in range(40 if tier == 'quick' else 800):
@@ -248,6 +253,10 @@ def _build_spec(case, PROP, r):
                 if not late:
                     sp['ops'].append({'op': 'set_header', 'lf': lf, 'field': 'origin_reference', 'value': chosen})
                 sp['ops'].append(dict(gen.origin_op('ORIGIN-DEFINING', fsn=3, **({'origin_reference': ref} if r.random() < 0.5 else {})), lf=lf))
+                if r.random() < 0.5:
+                    # ... which lives in ANOTHER origin set than the defining origin (created first, so written first)
+                    sp['ops'][-1]['set_name'] = 'MAIN-ORIGINS'
+                    case['two_origin_sets'] = True
                 sp['ops'].append(dict(gen.origin_op('ORIGIN-OTHER', fsn=4, origin_reference=chosen), lf=lf))
                 if late:
                     sp['ops'].append({'op': 'set_header', 'lf': lf, 'field': 'origin_reference', 'value': chosen})
